@@ -265,7 +265,7 @@ theorem decInstanceName_kb (n : Str) (as) (ks : List Xml) (k0 : Xml) (hn : n = "
     (h3 : k0.name = "KEYBINDING".toList) :
     decInstanceName C (.elem n as ks) =
       (do let kbs ← decKeybindings C ks
-          pure (.inst (getAttrD as "CLASSNAME" "") none none (kbs.foldl (fun acc k => kbInsert k acc) []))) := by
+          mkInstanceName (getAttrD as "CLASSNAME" "") (kbs.foldl (fun acc k => kbUpdate k acc) [])) := by
   simp only [decInstanceName]
   simp only [if_neg (show ¬ (n ≠ "INSTANCENAME".toList) from fun h => h hn), ha, ht, hf,
     Bool.not_true, Bool.false_eq_true, if_false, if_neg h1, if_neg h2, if_pos h3]
@@ -300,7 +300,7 @@ theorem decPathAny_lip (n : Str) (as) (ks : List Xml) (l i : Xml)
     decPathAny C (.elem n as ks) =
       (do let ns ← decLocalNsPath l
           match (← decInstNameKids C ks) with
-          | [p] => pure (p.withNs none (some ns))
+          | [p] => pure (p.withNs none (some (nsStrip ns)))
           | _ => perr) := by
   have h1 : n ≠ "INSTANCENAME".toList := by rw [hn]; decide
   have h2 : n ≠ "CLASSNAME".toList := by rw [hn]; decide
@@ -315,7 +315,7 @@ theorem decPathAny_ip (n : Str) (as) (ks : List Xml) (l i : Xml)
     decPathAny C (.elem n as ks) =
       (do let (host, ns) ← decNsPath l
           match (← decInstNameKids C ks) with
-          | [p] => pure (p.withNs (some host) (some ns))
+          | [p] => pure (p.withNs (some host) (some (nsStrip ns)))
           | _ => perr) := by
   have h1 : n ≠ "INSTANCENAME".toList := by rw [hn]; decide
   have h2 : n ≠ "CLASSNAME".toList := by rw [hn]; decide
@@ -331,7 +331,7 @@ theorem decPathAny_lcp (n : Str) (as) (ks : List Xml) (l c : Xml)
     decPathAny C (.elem n as ks) =
       (do let ns ← decLocalNsPath l
           let cn ← decClassName c
-          pure (.cls cn none (some ns))) := by
+          pure (.cls cn none (some (nsStrip ns)))) := by
   have h1 : n ≠ "INSTANCENAME".toList := by rw [hn]; decide
   have h2 : n ≠ "CLASSNAME".toList := by rw [hn]; decide
   have h3 : n ≠ "LOCALINSTANCEPATH".toList := by rw [hn]; decide
@@ -346,7 +346,7 @@ theorem decPathAny_cp (n : Str) (as) (ks : List Xml) (l c : Xml)
     decPathAny C (.elem n as ks) =
       (do let (host, ns) ← decNsPath l
           let cn ← decClassName c
-          pure (.cls cn (some host) (some ns))) := by
+          pure (.cls cn (some host) (some (nsStrip ns)))) := by
   have h1 : n ≠ "INSTANCENAME".toList := by rw [hn]; decide
   have h2 : n ≠ "CLASSNAME".toList := by rw [hn]; decide
   have h3 : n ≠ "LOCALINSTANCEPATH".toList := by rw [hn]; decide
@@ -386,6 +386,34 @@ theorem foldl_kbInsert (l acc : List Key) (h : NoDupKeyNames (acc ++ l)) :
       have := (List.nodup_append.mp h).2.2 _ (List.mem_map.mpr ⟨x, hx, rfl⟩) _ (List.mem_cons_self)
       exact this e
     rw [kbInsert_fresh k acc hfresh, ih (acc ++ [k]) (by simpa using h)]
+    simp
+
+theorem kbUpdate_fresh (k : Key) (acc : List Key)
+    (h : ∀ x ∈ acc, (Key.name x).map lowerAscii ≠ (Key.name k).map lowerAscii) : kbUpdate k acc = acc ++ [k] := by
+  induction acc with
+  | nil => rfl
+  | cons x acc ih =>
+    obtain ⟨n, v⟩ := x
+    obtain ⟨n', v'⟩ := k
+    have hx := h (.mk n v) (by simp)
+    simp only [Key.name] at hx
+    have hne : ¬ n = n' := fun e => hx (by rw [e])
+    simp only [kbUpdate, if_neg hne, List.cons_append]
+    rw [ih (fun y hy => h y (by simp [hy]))]
+
+theorem foldl_kbUpdate (l acc : List Key) (h : NoDupKeyNames (acc ++ l)) :
+    l.foldl (fun acc k => kbUpdate k acc) acc = acc ++ l := by
+  induction l generalizing acc with
+  | nil => simp
+  | cons k l ih =>
+    simp only [List.foldl_cons]
+    have hfresh : ∀ x ∈ acc, (Key.name x).map lowerAscii ≠ (Key.name k).map lowerAscii := by
+      intro x hx e
+      unfold NoDupKeyNames at h
+      simp only [List.map_append, List.map_cons] at h
+      have := (List.nodup_append.mp h).2.2 _ (List.mem_map.mpr ⟨x, hx, rfl⟩) _ (List.mem_cons_self)
+      exact this e
+    rw [kbUpdate_fresh k acc hfresh, ih (acc ++ [k]) (by simpa using h)]
     simp
 
 theorem dictInsert_fresh {α} (nameOf : α → Str) (x : α) (acc : List α)
@@ -524,6 +552,7 @@ theorem rt_key_ref (nm : Str) (p : Path) (p' : Path)
 
 /-- INSTANCENAME given the round trip of its keybindings -/
 theorem rt_instancename (cls : Str) (keys : List Key) (hn : NoDupKeyNames keys)
+    (hok : keysOk (wdKeys C.toCodec keys) = true)
     (ih : decKeybindings C (encKeys C.toCodec keys) = .ok (wdKeys C.toCodec keys)) :
     decInstanceName C (E "INSTANCENAME" [("CLASSNAME".toList, cls)] (encKeys C.toCodec keys)) =
       .ok (.inst cls none none (wdKeys C.toCodec keys)) := by
@@ -542,7 +571,9 @@ theorem rt_instancename (cls : Str) (keys : List Key) (hn : NoDupKeyNames keys)
     simp only [bind_ok, pure_eq_ok]
     have hn' : NoDupKeyNames ([] ++ wdKeys C.toCodec (k :: ks)) := by
       unfold NoDupKeyNames; rw [List.nil_append, wdKeys_names]; exact hn
-    rw [foldl_kbInsert _ [] hn']
+    rw [foldl_kbUpdate _ [] hn', List.nil_append]
+    unfold mkInstanceName
+    rw [if_pos hok, foldl_kbInsert _ [] hn']
     rfl
 
 theorem decInstNameKids_two (l : Xml) (ln : Str) (las) (lks : List Xml) (hl : l = .elem ln las lks)
@@ -555,9 +586,10 @@ theorem decInstNameKids_two (l : Xml) (ln : Str) (las) (lks : List Xml) (hl : l 
 
 /-- **path round trip, one level**: all six element forms, given the round trip of the keybindings -/
 theorem rt_path_inst (cls : Str) (host ns : Option Str) (keys : List Key) (hn : NoDupKeyNames keys)
+    (hok : keysOk (wdKeys C.toCodec keys) = true) (hns : NsOk ns)
     (ih : decKeybindings C (encKeys C.toCodec keys) = .ok (wdKeys C.toCodec keys)) :
     decPathAny C (encPath C.toCodec (.inst cls host ns keys)) = .ok (wdPath C.toCodec (.inst cls host ns keys)) := by
-  have hin := rt_instancename C cls keys hn ih
+  have hin := rt_instancename C cls keys hn hok ih
   cases ns with
   | none =>
     simp only [encPath, wdPath]
@@ -572,6 +604,7 @@ theorem rt_path_inst (cls : Str) (host ns : Option Str) (keys : List Key) (hn : 
           = .elem "LOCALINSTANCEPATH".toList [] [localNsPath n, .elem "INSTANCENAME".toList [("CLASSNAME".toList, cls)] (encKeys C.toCodec keys)] from rfl]
       rw [decPathAny_lip C _ _ _ (localNsPath n) _ rfl attrKeysOk_nil rfl rfl (name_elem _ _ _), decLocalNsPath_ok,
         decInstNameKids_two C (localNsPath n) _ _ _ (localNsPath_eq n) (by decide), hin]
+      simp only [bind_ok, pure_eq_ok, hns n rfl]
       rfl
     | some h =>
       simp only [encPath, wdPath]
@@ -580,9 +613,10 @@ theorem rt_path_inst (cls : Str) (host ns : Option Str) (keys : List Key) (hn : 
           = .elem "INSTANCEPATH".toList [] [nsPath h n, .elem "INSTANCENAME".toList [("CLASSNAME".toList, cls)] (encKeys C.toCodec keys)] from rfl]
       rw [decPathAny_ip C _ _ _ (nsPath h n) _ rfl attrKeysOk_nil rfl rfl (name_elem _ _ _), decNsPath_ok,
         decInstNameKids_two C (nsPath h n) _ _ _ rfl (by decide), hin]
+      simp only [bind_ok, pure_eq_ok, hns n rfl]
       rfl
 
-theorem rt_path_cls (cls : Str) (host ns : Option Str) :
+theorem rt_path_cls (cls : Str) (host ns : Option Str) (hns : NsOk ns) :
     decPathAny C (encPath C.toCodec (.cls cls host ns)) = .ok (wdPath C.toCodec (.cls cls host ns)) := by
   have hcn := decClassName_ok cls
   cases ns with
@@ -598,13 +632,35 @@ theorem rt_path_cls (cls : Str) (host ns : Option Str) :
       rw [show E "LOCALCLASSPATH" [] [localNsPath n, E "CLASSNAME" [("NAME".toList, cls)] []]
           = .elem "LOCALCLASSPATH".toList [] [localNsPath n, E "CLASSNAME" [("NAME".toList, cls)] []] from rfl]
       rw [decPathAny_lcp C _ _ _ (localNsPath n) _ rfl attrKeysOk_nil rfl rfl, decLocalNsPath_ok, hcn]
-      rfl
+      simp only [bind_ok, pure_eq_ok, hns n rfl]
     | some h =>
       simp only [encPath, wdPath]
       rw [show E "CLASSPATH" [] [nsPath h n, E "CLASSNAME" [("NAME".toList, cls)] []]
           = .elem "CLASSPATH".toList [] [nsPath h n, E "CLASSNAME" [("NAME".toList, cls)] []] from rfl]
       rw [decPathAny_cp C _ _ _ (nsPath h n) _ rfl attrKeysOk_nil rfl rfl, decNsPath_ok, hcn]
-      rfl
+      simp only [bind_ok, pure_eq_ok, hns n rfl]
+
+theorem keyValueOk_wdKey (k : Key) (h : SendableKey S k) : keyValueOk (Key.val (wdKey C.toCodec k)) = true := by
+  obtain ⟨n, v⟩ := k
+  cases v with
+  | ref p =>
+    have hk : keyValueOk (.ref p) = true := h.2.2
+    cases p with
+    | inst c hst ns ks => simp only [wdKey, Key.val, wdPath, keyValueOk]
+    | cls c hst ns => simp [keyValueOk] at hk
+  | null => exact absurd h.2 (by simp [AtomOk])
+  | einst i => exact absurd h.2 (by simp [AtomOk])
+  | ecls c => exact absurd h.2 (by simp [AtomOk])
+  | _ => simp only [wdKey, Key.val, keyValueOk]
+
+theorem keysOk_cons (k : Key) (l : List Key) : keysOk (k :: l) = (keyValueOk (Key.val k) && keysOk l) := by
+  obtain ⟨n, v⟩ := k; rfl
+
+theorem keysOk_wdKeys (ks : List Key) (h : SendableKeys S ks) : keysOk (wdKeys C.toCodec ks) = true := by
+  induction ks with
+  | nil => simp only [wdKeys]; rfl
+  | cons k ks ih =>
+    simp only [wdKeys, keysOk_cons, keyValueOk_wdKey C S k h.1, ih h.2, Bool.and_self]
 
 theorem rt_keys_cons (k : Key) (ks : List Key) (k' : Key) (ks' : List Key)
     (h1 : decKeybinding C (encKey C.toCodec k) = .ok k')
@@ -623,7 +679,7 @@ theorem rt_key : (k : Key) → SendableKey S k → decKeybinding C (encKey C.toC
   | .mk n (.ref p), h => by
     obtain ⟨hn, hp⟩ := h
     obtain ⟨nm, rfl⟩ := Option.isSome_iff_exists.mp hn
-    exact rt_key_ref C nm p _ (rt_path p hp)
+    exact rt_key_ref C nm p _ (rt_path p hp.1)
   | .mk n (.pyint v), h => by
     obtain ⟨nm, rfl⟩ := Option.isSome_iff_exists.mp h
     exact rt_key_pyint C nm v
@@ -672,8 +728,9 @@ theorem rt_keys : (ks : List Key) → SendableKeys S ks →
   | k :: ks, h => rt_keys_cons C k ks _ _ (rt_key k h.1) (rt_keys ks h.2)
 /-- **path round trip**: all six element forms, keybindings of every kind, reference keys nested to any depth -/
 theorem rt_path : (p : Path) → SendablePath S p → decPathAny C (encPath C.toCodec p) = .ok (wdPath C.toCodec p)
-  | .inst cls host ns keys, h => rt_path_inst C cls host ns keys h.2 (rt_keys keys h.1)
-  | .cls cls host ns, _ => rt_path_cls C cls host ns
+  | .inst cls host ns keys, h =>
+    rt_path_inst C cls host ns keys h.2.1 (keysOk_wdKeys C S keys h.1) h.2.2 (rt_keys keys h.1)
+  | .cls cls host ns, h => rt_path_cls C cls host ns h
 end
 
 end
